@@ -49,15 +49,17 @@ pub struct Peer {
     pub write_limit: Option<usize>,
     /// where the script is exhausted / the stream ends, poll_read fails with this error kind instead of reporting end of file
     pub end_error: Option<io::ErrorKind>,
+    /// once this many bytes were delivered, one poll_read fails with ErrorKind::Interrupted; the bytes behind stay available
+    pub interrupt_at: Option<usize>,
 }
 
 impl Peer {
     pub fn scripted(script: Vec<Vec<u8>>, trailing: Vec<u8>, chunks: Vec<usize>) -> Self {
-        Peer { script, trailing, next: 0, inbox: vec![], cur: 0, outbuf: vec![], log: vec![], chunks, chunk_i: 0, pending_toggle: false, client_apdus: vec![], gated: true, eof_after: None, reads_after_eof: 0, fail_writes_after: None, failed_writes: 0, write_limit: None, end_error: None }
+        Peer { script, trailing, next: 0, inbox: vec![], cur: 0, outbuf: vec![], log: vec![], chunks, chunk_i: 0, pending_toggle: false, client_apdus: vec![], gated: true, eof_after: None, reads_after_eof: 0, fail_writes_after: None, failed_writes: 0, write_limit: None, end_error: None, interrupt_at: None }
     }
     /// transport level: all `data` is readable at once, optionally ending after `eof_after` bytes
     pub fn preloaded(data: Vec<u8>, chunks: Vec<usize>, eof_after: Option<usize>) -> Self {
-        Peer { script: vec![], trailing: vec![], next: 0, inbox: data, cur: 0, outbuf: vec![], log: vec![], chunks, chunk_i: 0, pending_toggle: false, client_apdus: vec![], gated: false, eof_after, reads_after_eof: 0, fail_writes_after: None, failed_writes: 0, write_limit: None, end_error: None }
+        Peer { script: vec![], trailing: vec![], next: 0, inbox: data, cur: 0, outbuf: vec![], log: vec![], chunks, chunk_i: 0, pending_toggle: false, client_apdus: vec![], gated: false, eof_after, reads_after_eof: 0, fail_writes_after: None, failed_writes: 0, write_limit: None, end_error: None, interrupt_at: None }
     }
     fn release(&mut self) {
         if self.next < self.script.len() {
@@ -168,6 +170,13 @@ impl AsyncRead for Peer {
             }
             return Poll::Ready(Ok(()));
         }
+        if let Some(at) = self.interrupt_at {
+            if self.cur >= at {
+                self.interrupt_at = None;
+                self.log.push(Ev::ReadNoData);
+                return Poll::Ready(Err(io::Error::new(io::ErrorKind::Interrupted, "interrupted")));
+            }
+        }
         if self.pending_toggle {
             self.pending_toggle = false;
             cx.waker().wake_by_ref();
@@ -176,7 +185,12 @@ impl AsyncRead for Peer {
         let chunk = if self.chunks.is_empty() { usize::MAX } else { self.chunks[self.chunk_i % self.chunks.len()].max(1) };
         self.chunk_i += 1;
         let asked = buf.remaining();
-        let n = asked.min(chunk).min(limit - self.cur);
+        let mut n = asked.min(chunk).min(limit - self.cur);
+        if let Some(at) = self.interrupt_at {
+            if at > self.cur {
+                n = n.min(at - self.cur);
+            }
+        }
         let (a, b) = (self.cur, self.cur + n);
         let data = self.inbox[a..b].to_vec();
         buf.put_slice(&data);
